@@ -661,6 +661,8 @@ class Interp:
                 counter = ('range', iterable)
             elif isinstance(iterable, (SSeq, SArr, SRecList, list, tuple, lib.SymEnumerate)):
                 counter = ('seq', iterable)
+            elif isinstance(iterable, Sym) and iterable.kind == STR:
+                counter = ('seq', iterable)       # characters of a symbolic string, by position
             else:
                 raise Unsupported(f'invariant-cut for-loop over {type(iterable).__name__}')
         idx_name = spec.index or (st.target.id if kind == 'for' and counter[0] == 'range' and isinstance(st.target, ast.Name) else f'__i{ordinal}')
